@@ -1041,6 +1041,12 @@ impl PathSeg {
     ///
     /// Cast a ray to the left and count intersections.
     fn winding(&self, p: Point) -> i32 {
+        if let PathSeg::Line(_) = self {
+            // A line has no extrema; taking the subsegment over 0..1 would recompute its
+            // end points with rounding, so that adjacent segments no longer agree on
+            // their shared vertex.
+            return self.winding_inner(p);
+        }
         self.extrema_ranges()
             .into_iter()
             .map(|range| self.subsegment(range).winding_inner(p))
